@@ -12,6 +12,7 @@ import Distill.Model.Apply
 import Distill.Model.Convert
 import Distill.Model.Words
 import Distill.Model.Render
+import Distill.Model.Title
 namespace Distill.Slices
 open Distill Distill.Proto
 
@@ -278,6 +279,12 @@ def stripSlice : P String := do
   let t ← node
   pure ("|".intercalate ((stripNode t).elems.map (fun e => s!"{e.tag}:{attrsStr e.attrs}")))
 
+/-- `title markup orig hasH1 h1 headingMatch` → document title and result title -/
+def titleSlice : P String := do
+  let markup ← str; let orig ← str; let hasH1 ← bool; let h1 ← str; let hm ← bool
+  let i : TitleIn := { orig := orig.toList, h1 := if hasH1 then some h1.toList else none, headingMatch := hm }
+  pure s!"{hex (String.ofList (documentTitle i))} {hex (String.ofList (resultTitle markup.toList i))}"
+
 def dispatch (slice : String) : Option (P String) :=
   match slice with
   | "docfilters" => some docfilters
@@ -291,6 +298,7 @@ def dispatch (slice : String) : Option (P String) :=
   | "builder" => some builderSlice
   | "countwords" => some countWordsSlice
   | "strip" => some stripSlice
+  | "title" => some titleSlice
   | _ => none
 
 def answer (line : String) : String :=
